@@ -18,6 +18,8 @@ type View struct {
 	Version       uint16
 	Suite         uint16
 	DidResume     bool
+	Proto         string // negotiated application protocol
+	OCSP          []byte // stapled OCSP response as reported by ConnectionState
 	PeerCerts     [][]byte
 	EKM           []byte
 	EKMErr        error
@@ -111,6 +113,8 @@ func GMEnd(cfg *gmtls.Config, client bool, a App, v *View, keep **gmtls.Conn) fu
 		v.HandshakeErr = c.Handshake()
 		st := c.ConnectionState()
 		v.Complete, v.Version, v.Suite, v.DidResume = st.HandshakeComplete, st.Version, st.CipherSuite, st.DidResume
+		v.Proto = st.NegotiatedProtocol
+		v.OCSP = st.OCSPResponse
 		for _, pc := range st.PeerCertificates {
 			v.PeerCerts = append(v.PeerCerts, pc.Raw)
 		}
@@ -144,6 +148,8 @@ func StdEnd(cfg *stdtls.Config, client bool, a App, v *View) func(e *wire.End) e
 		v.HandshakeErr = c.Handshake()
 		st := c.ConnectionState()
 		v.Complete, v.Version, v.Suite, v.DidResume = st.HandshakeComplete, st.Version, st.CipherSuite, st.DidResume
+		v.Proto = st.NegotiatedProtocol
+		v.OCSP = st.OCSPResponse
 		for _, pc := range st.PeerCertificates {
 			v.PeerCerts = append(v.PeerCerts, pc.Raw)
 		}
